@@ -1359,6 +1359,11 @@ func (r *Reader) processParagraph(p paragraphXML) parsedParagraph {
 		}
 	}
 	parsed.Text = strings.Join(textParts, "")
+	if p.InnerXML != "" {
+		// Inline content in document order, including runs inside hyperlinks,
+		// tracked insertions and inline content controls
+		parsed.Text = paragraphInlineText(p.InnerXML)
+	}
 
 	// Legacy fallback for heading detection if no style resolver
 	if r.styleResolver == nil && parsed.StyleID != "" {
